@@ -33,6 +33,7 @@ RULE = (
 )
 ASSUMPTIONS = ["finite candidate values; tags are truthy (non-empty strings or tuples)", "default-initialised entries"]
 BUDGET = {"quick": {"random": 3000}, "thorough": {"random": 60000}}
+FUZZ = {"quick": {"runs": 5000, "max_time": 60}, "thorough": {"runs": 300000, "max_time": 900}}
 EXHAUSTIVE_RULE = {"quick": "all histories of length <= 4 (7381) x all batch splits x 6 policies x 5 targets",
                    "thorough": "all histories of length <= 5 (66430) x all batch splits x 6 policies x 5 targets"}
 EXHAUSTIVE_COMPLETE = False
